@@ -328,11 +328,11 @@ func (v Value) ToString() (string, bool) {
 }
 
 func getName(defaultName string, meta *Table) string {
-	if v := RawGet(meta, StringValue("__name")); !v.IsNil() {
-		s, ok := v.ToString()
-		if ok {
-			return s
-		}
+	// Only a string counts as a name (as in the reference implementation):
+	// converting any other value could lead back here, e.g. when a table is
+	// its own metatable and its own __name.
+	if s, ok := RawGet(meta, StringValue("__name")).TryString(); ok {
+		return s
 	}
 	return defaultName
 }
